@@ -45,6 +45,9 @@ type Conn struct {
 	recipients   []string
 	didAuth      bool
 	closed       bool
+
+	// closed when the goroutine feeding the backend during BDAT has returned
+	bdatDone chan struct{}
 }
 
 func newConn(c net.Conn, s *Server) *Conn {
@@ -168,6 +171,8 @@ func (c *Conn) setSession(session Session) {
 }
 
 func (c *Conn) Close() error {
+	c.abortBdat()
+
 	c.locker.Lock()
 	defer c.locker.Unlock()
 
@@ -1025,8 +1030,11 @@ func (c *Conn) handleBdat(arg string) {
 		// look at the fields of the next one.
 		dataResult, bdatStatus := c.dataResult, c.bdatStatus
 		session, recipients := c.Session(), c.recipients
+		done := make(chan struct{})
+		c.bdatDone = done
 
 		go func() {
+			defer close(done)
 			defer func() {
 				if err := recover(); err != nil {
 					c.handlePanic(err, bdatStatus)
@@ -1341,7 +1349,24 @@ func (c *Conn) readLine() (string, error) {
 	return line, err
 }
 
+// abortBdat ends a chunked transfer that has not been completed and waits
+// until the backend has returned from Data, so that no callback of the
+// aborted transaction runs concurrently with (or after) what follows.
+func (c *Conn) abortBdat() {
+	c.locker.Lock()
+	pipe, done := c.bdatPipe, c.bdatDone
+	c.bdatPipe = nil
+	c.locker.Unlock()
+
+	if pipe != nil {
+		pipe.CloseWithError(ErrDataReset)
+		<-done
+	}
+}
+
 func (c *Conn) reset() {
+	c.abortBdat()
+
 	c.locker.Lock()
 	defer c.locker.Unlock()
 
